@@ -119,9 +119,18 @@ def parse_model(line):
 
 
 def canon_impl(obs):
-    """drop the informational class name of delivered frames"""
-    return [o[:8] if o[0] == "D" else o for o in obs]
+    """granularity of the properties: a protocol error is a protocol error (the subclass is
+    informational), delivered frames are compared by their fields (class name informational)"""
+    out = []
+    for o in obs:
+        if o[0] == "D":
+            out.append(o[:8])
+        elif o[0] == "E":
+            out.append(("E", o[-1]))
+        else:
+            out.append(o)
+    return out
 
 
 def canon_model(obs):
-    return [o[:3] if o[0] == "E" else o for o in obs]
+    return [("E", o[2]) if o[0] == "E" else o for o in obs]
